@@ -261,6 +261,10 @@ theorem gen_impulse {β : Type} (o : NumOps α) (dur : Option α) (one zero : β
         | ok k => simp [map_const_range]
       · simp [h2]
 
+theorem gen_sinusoid {β : Type} (o : NumOps α) (sin : α → β) (twoPi : α) (freq phase : Arg α) (n : Nat) :
+    ALV.Gen.C19.sinusoid o sin twoPi freq phase n = sinusoidNow o sin twoPi freq phase n := by
+  simp only [ALV.Gen.C19.sinusoid, sinusoidNow, gen_modulo_counter]
+
 /-! ### today's code against the models of the code before the repairs D28 / D23 -/
 
 /-- where `int(modulo / step)` raises nothing (every exact number type; binary64 unless the quotient
